@@ -639,6 +639,95 @@ func runKeyvalue(c *h.Ctx, rounds int) {
 			}
 		}
 	}
+	// one pair per member of the object as it is now: wide objects (3 to 60
+	// members) whose owner replaces a member between two executions (same
+	// number of members), and short-lived objects of one shape, one after the other
+	{
+		k := 0
+		for _, width := range []int{3, 15, 16, 17, 33, 60} {
+			for _, pt := range []string{`$.keyvalue()`, `$.o.keyvalue()`, `strict $.o.keyvalue()`, `$.list[*].keyvalue()`} {
+				k++
+				if !c.Mine(k) {
+					continue
+				}
+				p := cachedPath(pt)
+				mk := func(round int) map[string]any {
+					m := map[string]any{}
+					for i := 0; i < width; i++ {
+						m[fmt.Sprintf("k%02d", i)] = float64(i + round)
+					}
+					return m
+				}
+				wrap := func(m map[string]any) any {
+					switch {
+					case strings.Contains(pt, ".o."):
+						return map[string]any{"o": m}
+					case strings.Contains(pt, "list"):
+						return map[string]any{"list": []any{m}}
+					}
+					return m
+				}
+				pairsOf := func(o *h.Out) string {
+					if o.Class != h.OK {
+						return o.Summary()
+					}
+					var ps []string
+					for _, it := range o.Items {
+						t, _ := it.(map[string]any)
+						ps = append(ps, fmt.Sprintf("%v=%s", t["key"], h.Canon(t["value"])))
+					}
+					return strings.Join(ps, " ")
+				}
+				wantOf := func(m map[string]any) string {
+					var ps []string
+					for _, key := range h.SortedKeys(m) {
+						ps = append(ps, fmt.Sprintf("%v=%s", key, h.Canon(m[key])))
+					}
+					sort.Strings(ps)
+					return strings.Join(ps, " ")
+				}
+				sorted := func(s string) string {
+					ps := strings.Fields(s)
+					sort.Strings(ps)
+					return strings.Join(ps, " ")
+				}
+				m := mk(0)
+				doc := wrap(m)
+				bad := ""
+				for step := 0; step < 6 && bad == ""; step++ {
+					got := pairsOf(h.Call("query", p, doc, h.Opts{}))
+					c.Eval(1)
+					if sorted(got) != wantOf(m) {
+						bad = fmt.Sprintf("after %d edits: %s; the object's members: %s", step, got, wantOf(m))
+					}
+					// the owner replaces one member by another
+					delete(m, fmt.Sprintf("k%02d", step))
+					m[fmt.Sprintf("renamed%d", step)] = "new"
+				}
+				for round := 1; round <= 40 && bad == ""; round++ {
+					mm := mk(round)
+					if round%2 == 0 {
+						delete(mm, "k01")
+						mm["other"] = true
+					}
+					got := pairsOf(h.Call("query", p, wrap(mm), h.Opts{}))
+					c.Eval(1)
+					if sorted(got) != wantOf(mm) {
+						bad = fmt.Sprintf("object %d of a series of short-lived objects: %s; its members: %s", round, got, wantOf(mm))
+					}
+					if round%8 == 0 {
+						runtime.GC()
+					}
+				}
+				cs := h.Case{Kind: "kv", Path: pt, Extra: map[string]string{"width": fmt.Sprint(width)}}
+				if bad != "" {
+					c.Violate("kv.shape", h.F("kind", "pairs-of-an-earlier-object", "width", fmt.Sprint(width)), fmt.Sprintf("%s on an object of %d members: %s", pt, width, bad), cs)
+				} else {
+					c.Held("kv.shape")
+				}
+			}
+		}
+	}
 	c.Sample("keyvalue", map[string]any{"path": "$.**.keyvalue()", "doc": "slab-allocated objects o0..oN, root in the middle, each with a marker member"})
 }
 
